@@ -16,6 +16,7 @@ import gen_checks as GC
 import gen_main
 import gen_main2
 import gen_plumb
+import gen_witness
 import gen_market
 import gen_tax
 import gen_asset
@@ -147,8 +148,9 @@ def flow_oracle(c, expected, zone):
 
 
 def run(ctx):
+    proofs__ = common.proof_status_async([(FAMILY, PROPFILE)] + gen_market.PROOFS + gen_tax.PROOFS + gen_asset.PROOFS + gen_main2.PROOFS + gen_plumb.PROOFS + gen_witness.PROOFS)      # re-checked in the background while the cases run
     out, metas = GC.run_targets(
-        ctx, PID, make_targets, 45, 700,
+        ctx, PID, make_targets, 36, 700,
         rule=('random model programs from harness/gen_common.ProgGen.any(): single economy / 2-3 regions sharing a '
               'currency / 2-3 currency zones with ExternalSector (cross-zone gifts, imports, non-unit time-varying '
               'XR paths) / gold standard; consolidated or treasury+central-bank government, 1-2 households (incl. '
@@ -188,16 +190,16 @@ def run(ctx):
         "the external sector's own NUMERAIRE pseudo-zone is excluded here (C07 states its position)"]
     # per-group balance lemmas for ALL zones / participant lists (coq/GenMarket, coq/GenTax, coq/GenAsset), each
     # tied to the implementation by its own state correspondence and oracle
-    out.proof = common.proof_status_many([(FAMILY, PROPFILE)] + gen_market.PROOFS + gen_tax.PROOFS + gen_asset.PROOFS + gen_main2.PROOFS + gen_plumb.PROOFS)
-    gen_market.extra(ctx, out, 150, 2000)
+    out.proof = proofs__.result()
+    gen_market.extra(ctx, out, 110, 2000)
     gen_tax.extra(ctx, out)
     gen_asset.extra(ctx, out)
     # whole-pipeline models of Model.main() with program-level theorems (coq/GenMain2): single-currency programs
     # (Main.build) and programs with several currency zones, ExternalSector and gold standard (Main2.build2)
     gen_main.extra(ctx, out, 30, 800)
-    gen_main2.extra(ctx, out, 50, 1000)
+    gen_main2.extra(ctx, out, 40, 1000)
     # the side conditions reduced to their semantic part, markets supplied from several other zones included (coq/GenPlumb)
-    gen_plumb.extra(ctx, out, 20, 500)
+    gen_plumb.extra(ctx, out, 14, 500)
     out.failures.extend(finding_probes())
     return out
 
